@@ -585,6 +585,17 @@ def c06(tier, seed, work):
     res = c06_vec(tier, seed, work)
     a, i = suite_for(seed, 2)
     d = 2 if tier == "quick" else 3
+    hs = [F.handshake_family(work, "c06-longuser", "longuser", tier, seed)]
+    require_accepted(hs)
+    ex = []
+    for f in hs:
+        ex += flatten(f)
+    attach_scripts(ex)
+    res["viols"] += ex
+    res["coverage"]["families"] += fam_cov(hs)
+    res["coverage"]["evaluations"] += sum(f["scripts"] for f in hs)
+    res["coverage"]["distinct_nontrivial"] += sum(f["scripts"] for f in hs)
+    res["coverage"]["rule"] += " Usernames of 17..516 bytes through NewV2Session: an error, and no RAKP Message 1 with a shortened name."
     res = add_console(res, work, [dict(name="c06-retry-n", insess=False, cmds="CmdsAR", maxcalls=2, maxatt=d, kinds="KindsRetryNS", auth=1, integ=1, codes="CodesAll"),
                                   dict(name="c06-retry-s", insess=True, cmds="CmdsAGH", maxcalls=2, maxatt=d, kinds="KindsRetry", auth=a, integ=i)],
                       "Retransmissions: every outcome sequence of Console.tla (busy, timeout code, garbage, bad signature, lost) in and out of a "
